@@ -16,7 +16,6 @@ structure Pushes (db : Db) (s s' : JState) (es : List Entry) : Prop where
   zero : ∀ a, Entry.accountCreated a ∈ es → ∀ k, db.storage a k = 0
   bal : BalOk (absT db s) → BalOk (absT db s')
 
-theorem sdOf_eq {s s' : JState} (h : s'.spec = s.spec) : sdOf s' = sdOf s := by simp [sdOf, h]
 
 theorem Pushes.refl (db : Db) (s : JState) : Pushes db s s [] :=
   ⟨fun _ _ h => by simpa using h, rfl, rfl, rfl, rfl, fun _ h => by simp at h, id⟩
